@@ -34,6 +34,14 @@ def gen(tier, rng):
         vs = " ".join(map(str, l))
         for (pn, pd) in PS:
             lines.append(f"agg percentile {pn} {pd} {vs}".rstrip())
+    # every integral p in [0,100] against input sizes for which len * p / 100 is an exact integer for many p
+    # (f64: len * p is exact and the division is correctly rounded, so the real code's index is the exact floor)
+    sizes = [10, 20, 50, 100] if tier == "quick" else [10, 20, 25, 40, 50, 90, 100, 150, 200]
+    for n in sizes:
+        vals = rng.shuffle(list(range(n)))
+        vs = " ".join(map(str, vals))
+        for pn in range(0, 101):
+            lines.append(f"agg percentile {pn} 1 {vs}")
     for n in list(range(0, 6)) + [17, 64]:
         lines.append(f"agg not {n}")
         hints = {(n, str(n)), (n, "none"), (0, "none"), (0, str(n)), (n, str(n + 3)), (0, str(n + 1)), (max(0, n - 1), str(n)),
@@ -94,6 +102,33 @@ def oracle(line, out):
     return "unknown op"
 
 
+CONVENTIONS = {
+    "floor(n*p/100) clamped": lambda n, p: max(0, min(n - 1, math.floor(n * p))),
+    "ceil(n*p/100)-1 clamped": lambda n, p: max(0, min(n - 1, math.ceil(n * p) - 1)),
+    "floor((n-1)*p/100)": lambda n, p: math.floor((n - 1) * p),
+    "ceil((n-1)*p/100)": lambda n, p: math.ceil((n - 1) * p),
+    "round((n-1)*p/100)": lambda n, p: math.floor((n - 1) * p + Fraction(1, 2)),
+}
+
+
+def rank_consistency(cases):
+    """'the rank prescribed by p': whatever rank convention the implementation follows, it must follow ONE
+    convention on all inputs.  Returns (convention, [cases deviating from the best-matching convention])."""
+    best, best_bad = None, None
+    for name, f in CONVENTIONS.items():
+        bad = []
+        for line, out in cases:
+            a = line.split()[2:]
+            l = sorted(int(x) for x in a[2:])
+            if not l or not out.startswith("some "):
+                continue
+            if int(out.split()[1]) != l[f(len(l), Fraction(int(a[0]), int(a[1])) / 100)]:
+                bad.append((line, out, name))
+        if best_bad is None or len(bad) < len(best_bad):
+            best, best_bad = name, bad
+    return best, best_bad or []
+
+
 def check(tier, replay=None):
     r = core.Report("C17", tier)
     rng = core.SplitMix(core.seed()).fork("C17")
@@ -122,12 +157,18 @@ def check(tier, replay=None):
         r.violation({"kind": "obligation-broken", "no_longer_checks": [f"harness/model output length impl={len(impl)} model={None if model is None else len(model)} ops={len(lines)} rc={rc}"], "stderr": err[-800:]}, no_input=True)
         return r.finish(TRUSTED)
     hist = {}
+    pcases = [(l, o) for l, o in zip(lines, impl) if l.startswith("agg percentile")]
+    conv, deviating = rank_consistency(pcases)
+    r.cov["percentile_rank_convention_followed"] = conv
+    deviating = {l: (o, c) for l, o, c in deviating}
+    orc = lambda line, out: (oracle(line, out) or (f"rank deviates from the convention `{deviating[line][1]}` that the implementation follows on the other "
+                             f"{len(pcases) - len(deviating)} percentile cases" if line in deviating and out == deviating[line][0] else None))
     for i, line in enumerate(lines):
         m = canon(line, model[i]) if model is not None else None
         op = line.split()[1]
         hist[op] = hist.get(op, 0) + 1
         nontriv = len(line.split()) > 3
-        d.case(line, impl[i], m, oracle, nontrivial=nontriv)
+        d.case(line, impl[i], m, orc, nontrivial=nontriv)
         if i % 997 == 0:
             r.sample({"op": line, "impl": impl[i], "model": m})
     r.cov["op_histogram"] = hist
